@@ -651,7 +651,7 @@ Lemma fd_unregister_res : forall s k, FdI s (-1) -> 0 <= k <= 32 ->
                                          (cur s' = cur s)).
 Proof.
   intros s k I K. unfold fd_unregister, getfd.
-  set (s0 := set_active (putfd s k (fd_with_registered (fdt s k) false)) (remove_z k (active s))).
+  match goal with |- FdRes s (bind (notify_fd ?S k) _) _ => set (s0 := S) end.
   assert (FD0 : forall i, fdt s0 i = if i =? k then fd_with_registered (fdt s k) false else fdt s i) by reflexivity.
   assert (U0 : registered (fdt s0 k) = false) by (rewrite FD0, Z.eqb_refl; reflexivity).
   assert (T0 : FdTop s s0 k).
@@ -710,7 +710,7 @@ Proof.
           * left. change (handled s4) with (handled s3). first [assumption|reflexivity].
       - split; [constructor; reflexivity|]. repeat split; try reflexivity.
         + change (handled s4) with (handled s3). rewrite H3. discriminate.
-        + left; reflexivity. }
+        + left. change (handled s4) with (handled s3). first [assumption|reflexivity]. }
     clearbody s5. destruct W5 as (W1 & W2 & W3 & W4 & W5 & W6 & W7 & W8 & W9 & W10 & W11).
     destruct T3 as [A1 A2 A3 A4 A5].
     split; [|split; [rewrite W2; assumption|split; [|congruence]]].
@@ -721,9 +721,7 @@ Proof.
       + rewrite W3. assumption.
       + destruct W5 as [W5|W5]; rewrite W5; auto.
     - apply (FdI_close s5 k); [|right].
-      + eapply FdI_ext; try eassumption; try congruence.
-        * rewrite W3. auto.
-        * rewrite W6. auto.
+      + apply (FdI_ext s3 s5 k I3); try congruence.
         * rewrite W7. intros e H. exists e. auto.
         * intros i. rewrite W2. apply gsame_refl.
       + repeat split; try congruence.
@@ -771,4 +769,218 @@ Proof.
       - rewrite P1. change (kern s0) with (kern s). rewrite NE. intros e [].
       - intros H. apply P4 in H. congruence. }
     unfold fin in G. cbv zeta in G. exact G.
+Qed.
+
+Lemma fd_set_handler_res : forall s k band h, FdI s (-1) -> 0 <= k <= 32 ->
+  let f := fdt s k in
+  let f' := if band =? 0 then fd_with_handlers f h (h_out f) (h_err f)
+            else if band =? 1 then fd_with_handlers f (h_in f) h (h_err f)
+            else fd_with_handlers f (h_in f) (h_out f) h in
+  FdRes s (fd_set_handler s k band h) (fun s' => InnerW (putfd s k f') s' /\ FdI s' (-1)).
+Proof.
+  intros s k band h I K f f'. unfold fd_set_handler, getfd. fold f. fold f'.
+  assert (G : gsame f' f) by (unfold f'; destruct (band =? 0); [|destruct (band =? 1)]; repeat split).
+  assert (I0 : FdI (putfd s k f') (-1)) by (apply FdI_putfd_gsame; assumption).
+  destruct (registered f) eqn:RG.
+  - assert (R0 : registered (fdt (putfd s k f') k) = true).
+    { rewrite fdt_putfd, Z.eqb_refl. destruct G as (G1 & _). rewrite G1. assumption. }
+    pose proof (notify_fd_res (putfd s k f') (-1) k I0 K (fun _ => R0)) as Q.
+    destruct (notify_fd (putfd s k f') k) as [s1|s1]; cbn [FdRes] in *.
+    + destruct Q as (A & B & _). auto.
+    + eapply HaltOf_same; [|eassumption]. reflexivity.
+  - cbn [FdRes]. split; [apply InnerW_refl|assumption].
+Qed.
+
+Lemma make_ready_spec : forall s x k bands, FdI s x -> okk s x k ->
+  let s' := make_ready s k bands in
+  Same s s' /\ (forall i, fkeep (fdt s' i) (fdt s i)) /\ handled s' = handled s /\ FdI s' x.
+Proof.
+  intros s x k bands I OK s'. unfold s', make_ready, getfd.
+  destruct (mem_z k (active s)) eqn:M.
+  - split; [constructor; reflexivity|]. split; [|split; [reflexivity|]].
+    + intros i. rewrite fdt_putfd. destruct (Z.eqb_spec i k) as [->|N]; repeat split.
+    + apply FdI_putfd_gsame; [assumption|repeat split].
+  - set (s1 := set_active _ _).
+    assert (I1 : FdI s1 x).
+    { destruct I as [F1 F2 F3 F4 F5 F6 F7 F8].
+      assert (FD : forall i, gsame (fdt s1 i) (fdt s i)).
+      { intros i. unfold s1. cbn [fdt set_active]. rewrite fdt_putfd. destruct (Z.eqb_spec i k) as [->|N]; repeat split. }
+      assert (OK1 : forall y, okk s x y -> okk s1 x y).
+      { intros y Y. eapply okk_ext; [eassumption|]. apply (FD y). }
+      constructor.
+      - intros y H. change (In y (active s ++ [k])) in H. apply in_app_or in H.
+        destruct H as [H|[H|[]]]; [apply OK1; auto|subst y; apply OK1; assumption].
+      - intros y H. apply OK1. apply F2. exact H.
+      - intros y H. apply OK1. apply F3. exact H.
+      - exact F4.
+      - exact F5.
+      - intros e H. change (In e (ep (kern s))) in H.
+        destruct (F6 e H) as [D|[D|(D & D1 & D2)]]; [left; assumption|right; left; exact D|].
+        right; right. destruct (FD (en_data e)) as (G1 & G2 & G3 & G4). rewrite G2, G3. auto.
+      - exact F7.
+      - intros n y H. change (nth_error (pkeys s) n = Some y) in H. destruct (F8 n y H) as [Q1 Q2].
+        destruct (FD y) as (_ & _ & _ & G4). rewrite G4. auto. }
+    split; [constructor; reflexivity|]. split; [|split; [reflexivity|]].
+    + intros i. rewrite fdt_putfd. unfold s1. cbn [fdt set_active]. rewrite !fdt_putfd, Z.eqb_refl.
+      destruct (Z.eqb_spec i k) as [->|N]; repeat split.
+    + apply FdI_putfd_gsame; [assumption|repeat split].
+Qed.
+
+Lemma activate_spec : forall s x k bits, FdI s x -> okk s x k ->
+  let s' := activate s k bits in
+  Same s s' /\ (forall i, fkeep (fdt s' i) (fdt s i)) /\ handled s' = handled s /\ FdI s' x.
+Proof.
+  intros s x k bits I OK.
+  assert (STEP : forall s0 b (c : bool), Same s s0 /\ (forall i, fkeep (fdt s0 i) (fdt s i)) /\ handled s0 = handled s /\ FdI s0 x ->
+     let s1 := if c then make_ready s0 k b else s0 in
+     Same s s1 /\ (forall i, fkeep (fdt s1 i) (fdt s i)) /\ handled s1 = handled s /\ FdI s1 x).
+  { intros s0 b c (A & B & C & D). destruct c; cbn zeta; [|auto].
+    assert (OK0 : okk s0 x k) by (eapply okk_ext; [eassumption|]; apply (B k)).
+    destruct (make_ready_spec s0 x k b D OK0) as (A1 & B1 & C1 & D1).
+    split; [eapply Same_trans; eassumption|]. split; [|split; [congruence|assumption]].
+    intros i. eapply fkeep_trans; [apply B1|apply B]. }
+  unfold activate. cbv zeta.
+  apply STEP. apply STEP. apply STEP.
+  split; [apply Same_refl|]. split; [intros; apply fkeep_refl|]. auto.
+Qed.
+
+(* ---------- iv_fd_register_try ---------- *)
+Lemma FdTop_putfd_k : forall s s4 k f, FdTop s s4 k -> hsame f (fdt s4 k) -> FdTop s (putfd s4 k f) k.
+Proof.
+  intros s s4 k f [A1 A2 A3 A4 A5] H. constructor; try assumption.
+  - eapply Same_trans; [eassumption|constructor; reflexivity].
+  - intros i. rewrite fdt_putfd. destruct (Z.eqb_spec i k) as [->|N]; [|apply A2].
+    eapply hsame_trans; [eassumption|apply A2].
+  - intros i N. rewrite fdt_putfd. destruct (Z.eqb_spec i k); [contradiction|auto].
+Qed.
+
+Lemma try_fail_cont : forall s s4 k, FdTop s s4 k -> FdI s4 (-1) -> noref s4 k -> 0 <= k <= 32 ->
+  FdRes s4 (let s5 := putfd s4 k (fd_with_registered (getfd s4 k) false) in
+            if is_epoll s5 then epoll_unregister_fd s5 k else R s5)
+    (fun s' => FdTop s s' k /\ registered (fdt s' k) = false /\ FdI s' (-1)).
+Proof.
+  intros s s4 k T I NR K. cbv zeta.
+  set (s5 := putfd s4 k _).
+  assert (G : FdTop s s5 k /\ registered (fdt s5 k) = false /\ FdI s5 (-1)).
+  { split; [apply FdTop_putfd_k; [assumption|repeat split]|].
+    split; [unfold s5; rewrite fdt_putfd, Z.eqb_refl; reflexivity|].
+    apply FdI_putfd_noref; assumption. }
+  destruct (is_epoll s5); [|exact G].
+  unfold epoll_unregister_fd.
+  assert (M : mem_z k (notify s5) = false).
+  { apply mem_z_false. destruct NR as (_ & _ & N3 & _). exact N3. }
+  rewrite M. exact G.
+Qed.
+
+Lemma try_success_cont : forall s s4 k (o : bool), FdTop s s4 k -> registered (fdt s4 k) = true ->
+  FdI s4 (-1) -> 0 <= k <= 32 ->
+  FdRes s4 (bind (if o then m_notify_fd (putfd s4 k (fd_with_wanted (getfd s4 k) 0)) k else R s4)
+                 (fun s => R (register_epilogue s)))
+    (fun s' => FdTop s s' k /\ registered (fdt s' k) = true /\ FdI s' (-1)).
+Proof.
+  intros s s4 k o T RG I K.
+  assert (FIN : forall s6, InnerW s4 s6 -> FdI s6 (-1) ->
+            FdTop s (register_epilogue s6) k /\ registered (fdt (register_epilogue s6) k) = true /\
+            FdI (register_epilogue s6) (-1)).
+  { intros s6 W6 I6. destruct (epilogue_spec s6 (-1) I6) as [W7 I7].
+    pose proof (InnerW_trans _ _ _ W6 W7) as W.
+    split; [eapply FdTop_W; eassumption|]. split; [|assumption].
+    destruct (iw_fd _ _ W k) as [_ E]. rewrite E. assumption. }
+  destruct o; cbn [bind FdRes]; [|apply FIN; [apply InnerW_refl|assumption]].
+  unfold getfd. set (s5 := putfd s4 k _).
+  assert (I5 : FdI s5 (-1)) by (apply FdI_putfd_gsame; [assumption|repeat split]).
+  assert (W5 : InnerW s4 s5).
+  { constructor; try reflexivity; [constructor; reflexivity|]. intros i. unfold s5. rewrite fdt_putfd.
+    destruct (Z.eqb_spec i k) as [->|N]; repeat split. }
+  assert (R5 : registered (fdt s5 k) = true).
+  { destruct (iw_fd _ _ W5 k) as [_ E]. rewrite E. assumption. }
+  assert (Q := m_notify_res s5 (-1) k I5 K (fun _ => R5) (fun _ => R5)).
+  destruct (m_notify_fd s5 k) as [s6|s6]; cbn [bind FdRes] in *.
+  - destruct Q as (A & B & _). apply FIN; [|assumption].
+    eapply InnerW_trans; [eassumption|apply Inner_W; assumption].
+  - eapply HaltOf_same; [|eassumption]. reflexivity.
+Qed.
+
+Lemma fd_register_try_res : forall s k, FdI s (-1) -> 0 <= k <= 32 -> registered (fdt s k) = false ->
+  FdRes s (fst (fd_register_try s k))
+    (fun s' => FdTop s s' k /\ registered (fdt s' k) = negb (snd (fd_register_try s k)) /\ FdI s' (-1)).
+Proof.
+  intros s k I K U. unfold fd_register_try.
+  destruct (prologue_spec s k I K U) as (T1 & I1 & NR1 & R1 & RB1 & A1 & H1 & IE1).
+  set (s1 := register_prologue s k) in *.
+  set (s2 := putfd s1 k (recompute_wanted (getfd s1 k))).
+  set (orig := wanted (getfd s2 k)).
+  set (s3 := if orig =? 0 then putfd s2 k (fd_with_wanted (getfd s2 k) (M_IN + M_OUT)) else s2).
+  assert (I2 : FdI s2 (-1)) by (apply FdI_putfd_gsame; [assumption|apply recompute_gsame]).
+  assert (W2 : InnerW s1 s2).
+  { constructor; try reflexivity; [constructor; reflexivity|]. intros i. unfold s2, getfd. rewrite fdt_putfd.
+    destruct (Z.eqb_spec i k) as [->|N]; repeat split. }
+  assert (P3 : InnerW s2 s3 /\ FdI s3 (-1) /\ noref s3 k /\ regb (fdt s3 k) = 0 /\ is_epoll s3 = is_epoll s /\
+               notify s3 = notify s1 /\ kern s3 = kern s1 /\ pkeys s3 = pkeys s1 /\ active s3 = active s1 /\
+               handled s3 = handled s1).
+  { unfold s3. destruct (orig =? 0).
+    - split.
+      { constructor; try reflexivity; [constructor; reflexivity|]. intros i. unfold getfd. rewrite fdt_putfd.
+        destruct (Z.eqb_spec i k) as [->|N]; repeat split. }
+      split; [apply FdI_putfd_gsame; [assumption|repeat split]|].
+      split; [exact NR1|]. split; [|repeat split; assumption].
+      unfold s2, getfd. rewrite !fdt_putfd, !Z.eqb_refl. exact RB1.
+    - split; [apply InnerW_refl|]. split; [assumption|]. split; [exact NR1|]. split; [|repeat split; assumption].
+      unfold s2, getfd. rewrite !fdt_putfd, !Z.eqb_refl. exact RB1. }
+  clearbody s3. destruct P3 as (W3 & I3 & NR3 & RB3 & IE3 & N3 & K3 & PK3 & A3 & H3).
+  pose proof (InnerW_trans _ _ _ W2 W3) as W13.
+  assert (T3 : FdTop s s3 k) by (eapply FdTop_W; eassumption).
+  assert (R3 : registered (fdt s3 k) = true) by (destruct (iw_fd _ _ W13 k) as [_ E]; rewrite E; assumption).
+  assert (M3 : mst s3 = mst s).
+  { rewrite (InnerW_mst _ _ W13). apply (sm_mst _ _ (ft_same _ _ _ T1)). }
+  destruct (is_epoll s3) eqn:IE.
+  - (* epoll *)
+    destruct (epoll_flush_one_ s3 k) as [s4 fl] eqn:FL.
+    destruct (flush_one_spec s3 (-1) k s4 fl FL I3 IE K (fun _ => R3)) as (E1 & E2 & E3 & E4 & E5 & E6 & E7 & E8 & E9 & E10).
+    assert (T4 : FdTop s s4 k) by (eapply FdTop_W; [eassumption|apply Inner_W; assumption]).
+    assert (M4 : mst s4 = mst s) by (rewrite (Inner_mst _ _ E1); assumption).
+    destruct fl; cbn [fst snd bind negb].
+    + destruct (E10 eq_refl) as [E11 E12].
+      assert (NR4 : noref s4 k).
+      { apply (noref_ext s3 s4 k NR3).
+        - rewrite (in_active _ _ E1). auto.
+        - left. apply (in_handled _ _ E1).
+        - auto.
+        - auto.
+        - rewrite E4. auto. }
+      pose proof (try_fail_cont s s4 k T4 E2 NR4 K) as Q. cbv zeta in Q.
+      destruct (if is_epoll (putfd s4 k (fd_with_registered (getfd s4 k) false))
+                then epoll_unregister_fd (putfd s4 k (fd_with_registered (getfd s4 k) false)) k
+                else R (putfd s4 k (fd_with_registered (getfd s4 k) false))) as [s'|s']; cbn [FdRes] in *.
+      * exact Q.
+      * eapply HaltOf_same; eassumption.
+    + assert (R4 : registered (fdt s4 k) = true).
+      { destruct (in_fd _ _ E1 k) as [[_ E] _]. rewrite E. assumption. }
+      pose proof (try_success_cont s s4 k (orig =? 0) T4 R4 E2 K) as Q.
+      destruct (bind (if orig =? 0 then m_notify_fd (putfd s4 k (fd_with_wanted (getfd s4 k) 0)) k else R s4)
+                     (fun s0 => R (register_epilogue s0))) as [s'|s']; cbn [FdRes] in *.
+      * exact Q.
+      * eapply HaltOf_same; eassumption.
+  - (* poll *)
+    unfold poll_notify_fd_sync.
+    destruct (has (poll_revents (kern s3) (fdnum (getfd s3 k)) 7) P_NVAL); cbn [fst snd bind negb].
+    + pose proof (try_fail_cont s s3 k T3 I3 NR3 K) as Q. cbv zeta in Q.
+      destruct (if is_epoll (putfd s3 k (fd_with_registered (getfd s3 k) false))
+                then epoll_unregister_fd (putfd s3 k (fd_with_registered (getfd s3 k) false)) k
+                else R (putfd s3 k (fd_with_registered (getfd s3 k) false))) as [s'|s']; cbn [FdRes] in *.
+      * exact Q.
+      * eapply HaltOf_same; eassumption.
+    + pose proof (poll_notify_res s3 (-1) k I3 IE K (fun _ => R3)) as Q.
+      destruct (poll_notify_fd s3 k) as [s4|s4]; cbn [bind FdRes] in *.
+      * destruct Q as ((E1 & E2 & _) & _).
+        assert (T4 : FdTop s s4 k) by (eapply FdTop_W; [eassumption|apply Inner_W; assumption]).
+        assert (M4 : mst s4 = mst s) by (rewrite (Inner_mst _ _ E1); assumption).
+        assert (R4 : registered (fdt s4 k) = true).
+        { destruct (in_fd _ _ E1 k) as [[_ E] _]. rewrite E. assumption. }
+        pose proof (try_success_cont s s4 k (orig =? 0) T4 R4 E2 K) as Q.
+        destruct (bind (if orig =? 0 then m_notify_fd (putfd s4 k (fd_with_wanted (getfd s4 k) 0)) k else R s4)
+                       (fun s0 => R (register_epilogue s0))) as [s'|s']; cbn [FdRes] in *.
+        -- exact Q.
+        -- eapply HaltOf_same; eassumption.
+      * eapply HaltOf_same; eassumption.
 Qed.
